@@ -37,7 +37,7 @@ ASSUME = [
 # properties whose oracle depends on the action DEFINITION (cost, prob, service, access ...): swept a second
 # time with every action passed as a parameter vector to a parameterised-action environment
 PARAM_PASS = {"C01", "C02", "C05", "C06", "C07", "C08"}
-POST = {"C03": ["envobj"], "C04": ["envobj"], "C06": ["envobj"], "C13": ["envobj"]}
+POST = {"C03": ["envobj"], "C04": ["envobj"], "C05": ["envobj"], "C06": ["envobj"], "C13": ["envobj"]}
 NEEDED_CLASSES = {
     "C01": ["exploit|success", "privesc|success", "exploit|host_fail", "privesc|host_fail", "privesc|gate:target_not_held"],
     "C02": ["exploit|gate:firewall", "exploit|gate:no_pivot",
@@ -49,10 +49,67 @@ NEEDED_CLASSES = {
 }
 
 
+def large_plan_walk(tier):
+    """C06 on scenarios far too large for the state graph (up to 95 hosts): every PREFIX of the reference model's
+    closure plan is walked through step(); after each step the terminal flag, goal_reached(state) and the
+    no-argument goal_reached() must all equal 'root on every sensitive host' of the installed state."""
+    from .common import import_nasim
+    nasim = import_nasim()
+    from nasim.envs import NASimEnv
+    from .layout import Layout
+    from .model import Model, CLASS_TO_TYPE
+    from .spec import spec_from_scenario
+    from .sweep import seam
+    sm = seam()
+    viol, steps, scen = [], 0, 0
+    names = ["medium-gen", "large-gen", "huge-gen", "pocp-1-gen"] + (["pocp-2-gen"] if tier == "thorough" else [])
+    for name in names:
+        for seed in ((0, 1) if tier == "quick" else range(5)):
+            sc = nasim.make_benchmark_scenario(name, seed=seed)
+            spec = spec_from_scenario(sc, name=f"{name}-s{seed}")
+            if any(not isinstance(h["os"], str) for h in spec["hosts"].values()):
+                continue
+            env = NASimEnv(sc)
+            lay = Layout(spec)
+            env.reset()
+            if not lay.bind_rows(env.current_state.tensor):
+                continue
+            model = Model(spec, lay.addrs)
+            ms, plan = model.closure_plan()
+            index = {(CLASS_TO_TYPE[type(a).__name__], a.name, (int(a.target[0]), int(a.target[1]))): i
+                     for i, a in enumerate(env.action_space.actions)}
+            env.get_score_upper_bound()
+            scen += 1
+            for act in plan:
+                i = index.get((act["type"], act["name"], tuple(act["target"])))
+                if i is None:
+                    break
+                sm.arm(1e-12)
+                o, r, done, trunc, info = env.step(i)
+                steps += 1
+                st = lay.status(env.current_state.tensor)
+                want = model.goal(st)
+                got = (bool(done), bool(env.goal_reached(env.current_state)), bool(env.goal_reached()))
+                if got != (want, want, want):
+                    viol.append({"property": "C06", "kind": "goal_signals_wrong_on_large_scenario", "engine": "plan_walk",
+                                 "generator": {"benchmark": name, "seed": seed}, "step": steps,
+                                 "detail": {"(terminal, goal_reached(state), goal_reached())": list(got),
+                                            "root_on_all_sensitive_hosts": want, "plan_step": f"{act['type']} {act['name']} {act['target']}"}})
+                    break
+                if done:
+                    break
+    return viol, steps, scen
+
+
 def run(pid, tier):
     t0 = time.time()
     opts = {"post": POST.get(pid, []), "param_pass": pid in PARAM_PASS}
     agg, violations, errors = run_family([pid], tier, opts)
+    walk = None
+    if pid == "C06":
+        wv, wsteps, wscen = large_plan_walk(tier)
+        violations = list(violations) + wv
+        walk = {"large_scenarios_walked": wscen, "steps": wsteps}
     if errors:
         raise HarnessError("; ".join(errors[:3]))
     # vacuity: the outcome classes this property needs must have been exercised
@@ -77,6 +134,7 @@ def run(pid, tier):
         "family_features": agg["features"],
         "env_object_pass": extra,
         "generative_transitions": agg["transitions"],
+        "plan_walk_on_large_generated_scenarios": walk,
         "of_which_through_parameter_vectors": agg.get("param_transitions", 0),
         "bound": "complete reachable state graph of every family scenario; both draw sides; all flat actions + no-op",
     }
@@ -84,4 +142,7 @@ def run(pid, tier):
 
 
 def replay(pid, rec):
+    if rec.get("engine") == "plan_walk":
+        v, _, _ = large_plan_walk("quick")
+        return [x for x in v if x["generator"] == rec["generator"]]
     return replay_sweep_record(rec)
